@@ -1543,3 +1543,55 @@ Lemma dyn_range_in_bounds_lemma E c s lo hi mask v w :
   exists l h z, read c s lo = Some (PInt l) /\ read c s hi = Some (PInt h) /\ w = PInt z
                 /\ cast_int v = Returns (PInt z) /\ int_range_spec z (Some l) (Some h) mask = true.
 Proof. cbn [validate_s]. apply dyn_range_accepts. Qed.
+
+(* reading a name-based Range: within the INCLUSIVE bounds whenever low <= high ... *)
+Lemma dyn_readable_inclusive_lemma c s n lo hi w :
+  dyn_readable c s n lo hi = Some w ->
+  exists l h z, read c s lo = Some (PInt l) /\ read c s hi = Some (PInt h) /\ w = PInt z /\ (l <= h -> l <= z <= h).
+Proof.
+  unfold dyn_readable. destruct (read c s lo) as [[]|]; try discriminate. destruct (read c s hi) as [[]|]; try discriminate.
+  set (zz := match get s n with Some (PInt z1) => z1 | _ => z end).
+  intros H; inversion H; subst. exists z, z0. eexists. split; [reflexivity|]. split; [reflexivity|]. split; [reflexivity|].
+  intros Hle. destruct (zz <? z) eqn:H1.
+  - split; [apply Z.le_refl | exact Hle].
+  - apply Z.ltb_ge in H1. destruct (zz >? z0) eqn:H2.
+    + split; [exact Hle | apply Z.le_refl].
+    + rewrite Z.gtb_ltb in H2. apply Z.ltb_ge in H2. split; assumption.
+Qed.
+
+(* ... but NOT within the declared exclusive range: F23 — after the low bound moved past the stored value (or on a fresh
+   instance, whose default is the low bound) the getter returns the excluded endpoint itself *)
+Lemma dyn_readable_refuted_lemma :
+  let c := [(0, (DRangeDyn 2 3 1, PInt 0)); (2, (DInt, PInt 0)); (3, (DInt, PInt 10))] in
+  let s := fst (setattr E0 c (fst (setattr E0 c [] 0 (PInt 3))) 2 (PInt 5)) in
+  dyn_readable c s 0 2 3 = Some (PInt 5) /\ int_range_spec 5 (Some 5) (Some 10) 1 = false
+  /\ validate_s E0 c s (DRangeDyn 2 3 1) (PInt 5) = Reject.
+Proof. vm_compute. repeat split. Qed.
+
+(* Dict(<key trait>, <value trait>): accepted iff a dict whose items are accepted one by one *)
+Lemma all_pairs_forall2 fk fv kvs l :
+  all_pairs fk fv kvs = DOk l <->
+  Forall2 (fun kx ky => fk (fst kx) = Accept (fst ky) /\ fv (snd kx) = Accept (snd ky)) kvs l.
+Proof.
+  revert l. induction kvs as [|[k x] kvs IH]; cbn; intros l.
+  - split; [intros H; inversion H; constructor | intros H; inversion H; reflexivity].
+  - split.
+    + destruct (fk k) as [k1| |e] eqn:Hk; try discriminate.
+      destruct (fv x) as [x1| |e] eqn:Hx; try discriminate.
+      destruct (all_pairs fk fv kvs) as [l'| |e] eqn:Hm; try discriminate.
+      intros H; inversion H; subst. constructor; [split; assumption | now apply IH].
+    + intros H; inversion H as [|? [k1 x1] ? l' [Hk Hx] Hr]; subst. cbn in Hk, Hx. rewrite Hk, Hx.
+      apply IH in Hr. now rewrite Hr.
+Qed.
+
+Lemma dict_items_lemma E kd vd v w :
+  validate E (DDict kd vd) v = Accept w <->
+  exists kvs l, v = PDict kvs /\ w = PDict (dict_build l) /\
+    Forall2 (fun kx ky => validate E kd (fst kx) = Accept (fst ky) /\ validate E vd (snd kx) = Accept (snd ky)) kvs l.
+Proof.
+  unfold validate. cbn [c_validate]. unfold dict_check. split.
+  - destruct v; try discriminate.
+    destruct (all_pairs (c_validate E kd) (c_validate E vd) l) as [l'| |e] eqn:Hm; try discriminate.
+    intros Hx; inversion Hx; subst. exists l, l'. repeat split. now apply all_pairs_forall2.
+  - intros (kvs & l & -> & -> & HF). apply all_pairs_forall2 in HF. now rewrite HF.
+Qed.
